@@ -86,5 +86,35 @@ def register(gen, T):
             raise ExtractError("Cast arm: no longer `if !to_literal { Cast(type, inner) } else { inner }`")
         out.append("/-- scalar types, after `remove_modifier`, to which a `Cast` is not emitted (`to_literal`) -/\n")
         out.append("def castDropLayers : List String := " + T.lean_list('"%s"' % l for l in layers) + "\n")
+        # ---- the literal shortcut of ImplicitConversion::apply with its payload expressions
+        casting = T.src("typer/src/casting.rs")
+        ab = fn_body(casting, "apply")
+        rows2 = []
+        for src_kind in ("IntLiteral", "FloatLiteral"):
+            m = re.search(r'if let Expression::Literal\(Constant::' + src_kind + r'\(v\)\) = expr\s*&& target_is_unmodified\s*\{', ab)
+            if not m:
+                raise ExtractError(f"apply: the {src_kind} shortcut was not found")
+            from rustsrc import matching
+            blk_end = matching(ab, m.end() - 1)
+            blk = ab[m.end():blk_end]
+            _, arms2, _ = first_match(blk, r'get_type_layer\(target_type_unmodified\)')
+            for pats, guard, result in match_arms(arms2):
+                result = normws(result)
+                if pats == ["_"]:
+                    continue
+                rm = re.match(r'^\{ return Expression::Literal\(Constant::([A-Za-z0-9]+)\((.*)\)\); \}$', result)
+                if not rm or guard is not None:
+                    raise ExtractError(f"apply: arm {pats!r} => {result[:60]!r} unsupported")
+                for p_ in pats:
+                    pm = re.match(r'^TypeLayer::Scalar\(ScalarType::([A-Za-z0-9]+)\)$', p_)
+                    if not pm:
+                        raise ExtractError(f"apply: pattern {p_!r} unsupported")
+                    if pm.group(1) != rm.group(1):
+                        raise ExtractError(f"apply: target {pm.group(1)} becomes a {rm.group(1)} constant")
+                    rows2.append((src_kind, pm.group(1), normws(rm.group(2))))
+        out.append("\n/-- `ImplicitConversion::apply`: (kind of the untyped literal, scalar type it is converted to, payload of the\n"
+                   "re-tagged constant as an expression in the literal's value `v`) -/\n")
+        out.append("def retagPayloads : List (String × String × String) :=\n  " + T.lean_list(
+            '("%s", "%s", "%s")' % r for r in rows2) + "\n")
         out.append(T.footer("FixpointTables"))
         return "".join(out)
